@@ -79,7 +79,13 @@ PossibleRaises(T, I) ==
         (IF \E v \in svs : FixedCountError(T, I, v) THEN {"fixed-count"} ELSE {}) \cup
         (IF \E t \in sts : NegativeStorageError(T, I, t) THEN {"negative-storage"} ELSE {}) \cup
         (IF \E t \in sts : StoFixedError(T, I, t) THEN {"storage-fixed-count"} ELSE {})
-RaiseOk(T, I, raised) == IF PossibleRaises(T, I) = {} THEN raised = "none" ELSE raised \in PossibleRaises(T, I)
+(* raises that are allowed but not required: a need that equals a fixed count exactly *)
+AllowedRaises(T, I) ==
+    (IF \E v \in SysServers(T) : FixedCountAtTheLimit(T, I, v) THEN {"fixed-count"} ELSE {}) \cup
+    (IF \E t \in SysStorages(T) : StoFixedAtTheLimit(T, I, t) THEN {"storage-fixed-count"} ELSE {})
+RaiseOk(T, I, raised) ==
+    \/ raised \in PossibleRaises(T, I) \cup AllowedRaises(T, I)
+    \/ raised = "none" /\ PossibleRaises(T, I) = {}
 ExpectedRaise(T, I) == IF PossibleRaises(T, I) = {} THEN "none" ELSE CHOOSE r \in PossibleRaises(T, I) : TRUE
 
 CheckModel(e) ==
